@@ -115,6 +115,31 @@ def run(tier, seed):
                 if worst > tol:
                     bad.append(dict(failed="snapshots appended after the restart equal those of the uninterrupted run (max relative difference %.3e)" % worst, case=info))
             shutil.rmtree(d, ignore_errors=True)
+    # ---- two interrupted runs restarted from their logs on ONE shared model object before either is resumed: each still reproduces its own uninterrupted run
+    for it in range(3 if tier == "quick" else 20):
+        cls = ["fssh", "ehrenfest"][it % 2]; mname, x0, p0, dt = MODELS[[0, 2, 3][it % 3]]
+        C, modelS = mk(cls, mname); n = 60
+        Zs = [[2.0] * (n + 5), [2.0] * (n + 5)]; starts = [(x0, p0), ([x0[0] + 1.0], [p0[0] * 1.5])]
+        zk = (lambda zz: dict(zeta_list=list(zz))) if cls == "fssh" else (lambda zz: {})
+        fulls = [C(mk(cls, mname)[1], xs, ps, 0, dt=dt, max_steps=n, **zk(Z_)).simulate() for (xs, ps), Z_ in zip(starts, Zs)]
+        ks2 = [rng.randint(5, 25), rng.randint(26, 50)]
+        parts = [C(mk(cls, mname)[1], xs, ps, 0, dt=dt, max_steps=k_, **zk(Z_)).simulate() for (xs, ps), Z_, k_ in zip(starts, Zs, ks2)]
+        try:
+            rs = [C.restart(modelS, part_, dt=dt, max_steps=n, **zk(Z_[k_:])) for part_, Z_, k_ in zip(parts, Zs, ks2)]      # both restarted first ...
+            outs = [r_.simulate() for r_ in rs]                                                                                   # ... then both resumed
+        except Exception as ex:
+            bad.append(dict(failed="restart raised %s: %s" % (type(ex).__name__, ex), case=dict(cls=cls, model=mname, interleaved=True))); continue
+        res.count("two-restarts-on-one-model-object/" + cls); res.case(("restart2", cls, mname, tuple(ks2)), True)
+        for j_, (out_, full_) in enumerate(zip(outs, fulls)):
+            worst = 1.0 if len(out_) != len(full_) else 0.0
+            if len(out_) == len(full_):
+                for a, b in zip(out_, full_):
+                    fa, fb = fields(a, cls), fields(b, cls)
+                    for key in fa:
+                        worst = max(worst, float(np.max(np.abs(fa[key] - fb[key])) / (1.0 + float(np.max(np.abs(fb[key]))))))
+            if worst > 1e-10:
+                bad.append(dict(failed="snapshots appended after the restart equal those of the uninterrupted run (two interrupted runs restarted on one shared model object before either was resumed: run %d deviates by %.3e)" % (j_ + 1, worst),
+                                case=dict(cls=cls, model=mname, interrupted_after=ks2))); break
     shutil.rmtree(tmproot, ignore_errors=True)
     failing, errors = run_case_check("C13", PRELUDE, "case13", "chk13", cases, per_file=300)
     for e in errors:
